@@ -260,3 +260,36 @@ def return_keys(ctx, fn, rule):
         elif p.end == "fall":
             out.add(None)
     return out
+
+
+def positional_args(ctx, mod, call):
+    """the argument expressions of `call` in the callee's parameter order, keywords put in their places (callee: a function or a class
+    of the package - its __init__ through the MRO); the call's own positional list when the callee or a keyword cannot be resolved"""
+    f = call.func
+    if not isinstance(f, ast.Name) or any(isinstance(a, ast.Starred) for a in call.args) or any(k.arg is None for k in call.keywords):
+        return list(call.args)
+    r = ctx.prog.resolve(mod, f.id)
+    fn = None
+    if r and r[0] == "func":
+        fn, skip = r[1], 0
+    elif r and r[0] == "class":
+        for c in ctx.prog.mro(r[1]):
+            for st in c.body:
+                if isinstance(st, ast.FunctionDef) and st.name == "__init__":
+                    fn, skip = st, 1
+                    break
+            if fn is not None:
+                break
+    if fn is None or fn.args.vararg or fn.args.kwarg:
+        return list(call.args)
+    params = [a.arg for a in fn.args.posonlyargs + fn.args.args][skip:]
+    out = list(call.args)
+    if len(out) > len(params):
+        return list(call.args)
+    kw = {k.arg: k.value for k in call.keywords}
+    for p_ in params[len(out):]:
+        if p_ in kw:
+            out.append(kw.pop(p_))
+        else:
+            break
+    return out if not kw else list(call.args)
